@@ -19,7 +19,7 @@ import (
 // Op is one step of a history. Indices are interpreted modulo the number of live objects, so every history is
 // executable and shrinks freely.
 type Op struct {
-	K   string `json:"k"`             // ins | dup | del | delnear | delchain | fill | delabsent | drain | search | nn | knn
+	K   string `json:"k"`             // ins | dup | del | delnear | delchain | fill | delabsent | drain | search | nn | knn | nnswap
 	Box [4]int `json:"box,omitempty"` // x, y, w, h on a small integer grid (ins, search)
 	Idx int    `json:"idx,omitempty"` // which live object (dup, del, delabsent), drain stride
 	Qx  int    `json:"qx,omitempty"`  // query point in half units (nn, knn)
@@ -113,6 +113,7 @@ func GenHistory(t *rapid.T, queries string) History {
 	h.Float = rapid.IntRange(0, 2).Draw(t, "float") == 1
 	// one history in twelve stores many objects without any point (whole nodes of them)
 	emptyHeavy := rapid.IntRange(0, 11).Draw(t, "emptyheavy") == 7
+	var lastNN *Op
 	for i := 0; i < n; i++ {
 		stay := 24
 		if phase == 3 {
@@ -140,6 +141,7 @@ func GenHistory(t *rapid.T, queries string) History {
 		}
 		k := rapid.SampledFrom(kinds).Draw(t, "op")
 		op := Op{K: k}
+		repeated := false
 		switch k {
 		case "delnear":
 			op.Idx = rapid.IntRange(0, 1000).Draw(t, "idx")
@@ -185,15 +187,29 @@ func GenHistory(t *rapid.T, queries string) History {
 				op.K = "search"
 				op.Box = [4]int{rapid.IntRange(-1, grid+1).Draw(t, "qx"), rapid.IntRange(-1, grid+1).Draw(t, "qy"), rapid.IntRange(0, grid).Draw(t, "qw"), rapid.IntRange(0, grid).Draw(t, "qh")}
 			} else {
-				op.K = rapid.SampledFrom([]string{"nn", "knn", "knn"}).Draw(t, "nnkind")
+				op.K = rapid.SampledFrom([]string{"nn", "nn", "knn", "knn", "knn", "nnrep", "nnswap"}).Draw(t, "nnkind")
 				op.Qx, op.Qy = rapid.IntRange(-4, 2*grid+8).Draw(t, "qx"), rapid.IntRange(-4, 2*grid+8).Draw(t, "qy")
 				op.Kn = rapid.IntRange(1, 12).Draw(t, "k")
 				if rapid.IntRange(0, 9).Draw(t, "farq") == 0 {
 					op.Far = rapid.SampledFrom([]int{300, 500, 511, 512, 513, 600, 900, 1015}).Draw(t, "far")
 				}
+				switch op.K {
+				case "nnrep":
+					// the point of the last k = 1 query once more, bit for bit (an answer remembered from then must not
+					// survive the updates in between)
+					op.K = "nn"
+					if lastNN != nil {
+						op, repeated = *lastNN, true
+					}
+				case "nnswap":
+					// k = 1 query, an object put right on the query point, another object deleted, the same query again
+					op.Idx = rapid.IntRange(0, 1000).Draw(t, "idx")
+					op.Far = 0
+				}
+
 			}
 		}
-		if h.Float && (op.K == "ins" || op.K == "search" || op.K == "nn" || op.K == "knn") {
+		if h.Float && (op.K == "ins" || op.K == "search" || op.K == "nn" || op.K == "knn" || op.K == "nnswap") && !repeated {
 			for j := range op.F {
 				op.F[j] = rapid.Float64Range(0, 1).Draw(t, "frac")
 			}
@@ -203,6 +219,10 @@ func GenHistory(t *rapid.T, queries string) History {
 			if op.Box[3] == 0 && rapid.Bool().Draw(t, "thinh") {
 				op.F[3] = 0
 			}
+		}
+		if op.K == "nn" {
+			cp := op
+			lastNN = &cp
 		}
 		h.Ops = append(h.Ops, op)
 	}
